@@ -245,6 +245,36 @@ Proof.
 Qed.
 Print Assumptions C16_unfaithful_protocol_refuted.
 
+(* Several streams on one connection (the library keeps ONE StreamContext and calls reset() in
+   send_audio): whatever state an earlier stream - complete, stopped, failed - left the context
+   in, the next stream behaves exactly like a first stream started at the new sequence number and
+   timestamp.  Hence every theorem of this file holds for the second, third, ... stream. *)
+Theorem C16_next_stream_like_first : forall c prev seq0 script sched,
+  next_stream c prev seq0 script sched = stream c seq0 script sched.
+Proof. intros c prev seq0 script sched. reflexivity. Qed.
+Print Assumptions C16_next_stream_like_first.
+
+(* ... and that rests on reset() clearing padding_sent: with a reset that keeps it, a stream that
+   follows a completed one sends nothing at all (no audio, no silence). *)
+Theorem C16_reset_must_clear_padding :
+  exists c seq0 script sched,
+    wf_cfg c seq0 /\ no_stop sched /\
+    let first := fst (stream c seq0 script sched) in
+    snd (stream c seq0 script sched) = Finished /\ length (s_out first) = 2 /\
+    s_out (fst (laps c sched 0
+                  (stale_reset {| s_seq := s_seq first; s_head := s_head first; s_pad := s_pad first;
+                                  s_src := script; s_reads := O; s_backlog := []; s_out := [] |}
+                               seq0 (c_start c)))) = [].
+Proof.
+  exists {| c_send := send_audio_packet V1; c_fs := 1; c_latency := 352; c_start := 0; c_ssrc := 1; c_lim := 1000;
+            c_close := None |}, 7%N, [Ok [1; 2]%N], (plain_sched 4).
+  split; [|split].
+  - split; [exact plain_v1|]. cbn; unfold SEQMOD, TSLIM; repeat split; lia.
+  - apply Forall_forall. intros l Hl. apply repeat_spec in Hl. subst l. reflexivity.
+  - vm_compute. repeat split; reflexivity.
+Qed.
+Print Assumptions C16_reset_must_clear_padding.
+
 (* ------------------------------------------------------------------ non-vacuity *)
 (* pyatv's real parameters (AirPlay v2 without audio cipher): stereo 16 bit, latency 22050+44100, backlog 1000, start at 65534 *)
 Definition real_cfg : cfg :=
